@@ -259,11 +259,16 @@ class DataConnection(Connection, abc.ABC):
         if self.state in (ConnectionState.CLOSED, ConnectionState.CLOSING):
             return
 
-        await self.set_state(ConnectionState.CLOSING, close_reason=reason)
-        adapter.debug("disconnecting : %s", reason.name, extra=self.__dict__)
-        self._cancel_queued_messages()
+        # The state is set to CLOSING inside the try block: if the task calling
+        # this method gets cancelled while listeners are being notified the
+        # connection still needs to end up CLOSED
+        writer_handled = False
         try:
+            await self.set_state(ConnectionState.CLOSING, close_reason=reason)
+            adapter.debug("disconnecting : %s", reason.name, extra=self.__dict__)
+            self._cancel_queued_messages()
             if self._writer is not None:
+                writer_handled = True
                 if not self._writer.is_closing():
                     self._writer.close()
 
@@ -275,6 +280,10 @@ class DataConnection(Connection, abc.ABC):
                 "exception while disconnecting : %r", exc, extra=self.__dict__)
 
         finally:
+            if not writer_handled and self._writer is not None:
+                if not self._writer.is_closing():
+                    self._writer.close()
+
             await self.set_state(ConnectionState.CLOSED, close_reason=reason)
             # Because disconnect can be called when read failed setting the
             # reader task to none should be done last
